@@ -20,3 +20,16 @@ let rec int_of_nat = function O -> 0 | S n -> 1 + int_of_nat n
 let list_str f l = "[" ^ String.concat "," (List.map f l) ^ "]"
 let nlist l = list_str string_of_n l
 let split_ws s = List.filter (fun x -> x <> "") (String.split_on_char ' ' s)
+
+(* main loop shared by all per-property drivers: one case per line in, one result per line out *)
+let main dispatch =
+  let buf = Buffer.create (1 lsl 16) in
+  (try
+     while true do
+       let line = input_line stdin in
+       let r = (try dispatch line with e -> "MODEL-EXN " ^ Printexc.to_string e) in
+       Buffer.add_string buf r; Buffer.add_char buf '\n';
+       if Buffer.length buf > 60000 then (print_string (Buffer.contents buf); Buffer.clear buf)
+     done
+   with End_of_file -> ());
+  print_string (Buffer.contents buf)
